@@ -63,8 +63,9 @@ def run(ctx):
     for i in range(nnas):
         a, b = dec(rnd), dec(rnd)
         if rnd.random() < 0.2: b = a if rnd.random() < 0.5 else re.sub(r'^(-?)', r'\g<1>0', a) + ('' if ('e' in a.lower()) else ('.0' if '.' not in a else '0'))
-        op = rnd.choice(['"+"', '"-"', '"*"', '"abs"', '"||"', '"="', '"!="', '"<"', '"<="', '">"', '">="'])
-        e = '(%s .a)' % op if op in ('"abs"', '"||"') else '(%s .a .b)' % op
+        op = rnd.choice(['"+"', '"-"', '"*"', '"abs"', '"||"', '"="', '"!="', '"<"', '"<="', '">"', '">="', '"round"'])
+        if op == '"round"' and rnd.random() < 0.5: a = rnd.choice(['-', '']) + str(rnd.randint(0, 30)) + rnd.choice(['.5', '.50', '.49999999999999999999', '.50000000000000000001', '.0', ''])
+        e = '(%s .a)' % op if op in ('"abs"', '"||"', '"round"') else '(%s .a .b)' % op
         c = mkcase('N%d' % i, lib.new_cfg(select=[e + '=x']), gen.jdump({'a': a, 'b': b})); cases.append(c); meta[c['id']] = ('nas', op, a, b)
     # digit-only and signed spellings with leading zeros, every ordered pair, every comparison (a shortcut by length or by text is wrong here)
     ZS = ['7', '007', '12', '0012', '0', '00', '000', '100', '0100', '99', '099', '-7', '-007', '-0', '-00', '7.0', '07.50', '7.5', '1e1', '010e-1']
@@ -102,7 +103,11 @@ def run(ctx):
             fa, fb = frac(sa), frac(sb)
             r = json.loads(rows(a['stdout'])[0]); got = r.get('x')
             checked += 1
-            if op in ('"+"', '"-"', '"*"', '"abs"', '"||"'):
+            if op == '"round"':
+                gv = frac(got) if isinstance(got, str) else None
+                # nearest integer; on an exact tie the documentation does not say which way: both neighbours are accepted, the model decides
+                if gv is None or gv.denominator != 1 or abs(gv - fa) > Fraction(1, 2): violations.append(viol(c, '"round" is a nearest integer', repr(got), str(fa)))
+            elif op in ('"+"', '"-"', '"*"', '"abs"', '"||"'):
                 exp = {'"+"': lambda: fa + fb, '"-"': lambda: fa - fb, '"*"': lambda: fa * fb, '"abs"': lambda: abs(fa), '"||"': lambda: fa}[op]()
                 gv = frac(got) if isinstance(got, str) else None
                 if gv is None or gv != exp:
